@@ -40,6 +40,10 @@ fn projections() -> Vec<(&'static str, fn(&Row) -> Val)> {
         // a NULL in the list is an element that equals nothing: x = NULL and x != NULL are both false
         ("a IN (1, NULL)", |r| Ok(json!(cmp(r.0, Some(1), i64::eq)))), ("a IN (NULL, 1)", |r| Ok(json!(cmp(r.0, Some(1), i64::eq)))),
         ("a NOT IN (1, NULL)", |_| Ok(json!(false))), ("a NOT IN (NULL)", |_| Ok(json!(false))), ("a IN (NULL)", |_| Ok(json!(false))),
+        // a WHEN condition without a value is an error of the query, not a false branch (conditions are tried in order)
+        ("CASE WHEN a / b > 1 THEN 'big' ELSE 'small' END", |r| match (r.0, r.1) { (Some(_), Some(0)) => Err(()), (Some(x), Some(y)) => match x.checked_div(y) { Some(v) => Ok(json!(if v > 1 { "big" } else { "small" })), None => Err(()) }, _ => Ok(json!("small")) }),
+        ("CASE WHEN a = 0 THEN 'zero' WHEN b / a > 0 THEN 'pos' ELSE 'other' END", |r| match (r.0, r.1) { (Some(0), _) => Ok(json!("zero")), (Some(x), Some(y)) => match y.checked_div(x) { Some(v) => Ok(json!(if v > 0 { "pos" } else { "other" })), None => Err(()) }, _ => Ok(json!("other")) }),
+        ("CASE WHEN nosuch = 1 THEN 1 ELSE 0 END", |_| Err(())),
         ("a + s", |r| match (r.0, r.2) { (Some(_), Some(_)) => Err(()), _ => Ok(J::Null) }),
         ("nosuch", |_| Err(())), ("a + nosuch", |_| Err(())),
     ]
@@ -99,6 +103,21 @@ fn verif_grid() {
     g.case("input", || match q(DEF, "SELECT input, a FROM t WHERE a = 1", &["a=1 b= s=x", "a=2 b=2", "a=1 b=1"]) {
         Outcome::Lines(l, _) => if l == vec![r#"{"input":"a=1 b= s=x","a":1}"#.to_owned(), r#"{"input":"a=1 b=1","a":1}"#.to_owned()] { Ok(()) } else { Err(format!("SELECT input, a WHERE a = 1 printed {:?}", l)) },
         other => Err(format!("{:?}", other)) });
+    // REAL values compare numerically: -0.0 = 0.0, adjacent doubles differ, exactly one of <, =, > holds
+    {
+        let def = "CREATE TABLE t(line = '^x=(\\\\S+) y=(\\\\S+)$', line[1] => x REAL, line[2] => y REAL);";
+        let reals = ["0.0", "-0.0", "1.0", "1.0000000000000002", "0.9999999999999999", "-1.5", "1e308", "-1e308", "5e-324", "0.1", "0.30000000000000004", "0.3"];
+        for (i, a) in reals.iter().enumerate() { for (j, c) in reals.iter().enumerate() {
+            let line = format!("x={} y={}", a, c);
+            let (fa, fc): (f64, f64) = (a.parse().unwrap(), c.parse().unwrap());
+            g.case(&format!("real-compare-{}-{}", i, j), move || {
+                let want = format!("{{\"lt\":{},\"le\":{},\"eq\":{},\"ne\":{},\"ge\":{},\"gt\":{}}}", fa < fc, fa <= fc, fa == fc, fa != fc, fa >= fc, fa > fc);
+                match q(def, "SELECT x < y AS lt, x <= y AS le, x = y AS eq, x != y AS ne, x >= y AS ge, x > y AS gt FROM t", &[&line]) {
+                    Outcome::Lines(l, _) => if l == vec![want.clone()] { Ok(()) } else { Err(format!("REAL comparisons on the row {:?} printed {:?}; numerically they are {}", line, l, want)) },
+                    other => Err(format!("{:?}", other)) }
+            });
+        } }
+    }
     // `input` denotes the raw line, also when the table has a column of that name
     g.case("input-column-name-clash", || {
         let def = "CREATE TABLE t(line = '^input=(\\\\w+) x=([0-9]+)$', line[1] => input TEXT, line[2] => x INT);";
